@@ -35,13 +35,13 @@ def time_limit(sec):
     def on_alarm(signum, frame):
         raise IterTimeout()
 
-    old = signal.signal(signal.SIGALRM, on_alarm)
-    signal.setitimer(signal.ITIMER_REAL, sec)
+    old = signal.signal(signal.SIGPROF, on_alarm)   # CPU time of this process: a loaded machine must not look like a hang
+    signal.setitimer(signal.ITIMER_PROF, sec)
     try:
         yield
     finally:
-        signal.setitimer(signal.ITIMER_REAL, 0)
-        signal.signal(signal.SIGALRM, old)
+        signal.setitimer(signal.ITIMER_PROF, 0)
+        signal.signal(signal.SIGPROF, old)
 
 
 # --------------------------------------------------------------------------
